@@ -375,6 +375,11 @@ func (c *FederationClient) readPump(conn *websocket.Conn) {
 			continue
 		}
 
+		if err := msg.CheckValid(); err != nil {
+			log.Printf("Received invalid message %s from %s: %s", string(data), c.URL(), err)
+			continue
+		}
+
 		if c.hello.Load() == nil {
 			switch msg.Type {
 			case "welcome":
